@@ -261,3 +261,82 @@ def const_value(repo, mod, node):
         v = const_value(repo, mod, node.operand)
         return -v if v is not None else None
     return None
+
+
+# --------------------------------------------------------------------------- pure time polynomials
+def is_pure(t, allowed):
+    """t is built from numbers and the allowed symbols with + * ** only"""
+    h = t[0]
+    if h == "num":
+        return True
+    if h == "sym":
+        return t[1] in allowed
+    if h in ("add", "mul"):
+        return all(is_pure(x, allowed) for x in t[1:])
+    if h == "pow":
+        return is_pure(t[1], allowed) and t[2][0] == "num"
+    return False
+
+
+def pure_polys(term, var, min_degree=2):
+    """maximal subterms of `term` that are polynomials in the single symbol `var`
+    of degree >= min_degree; returns list of coefficient tuples (Fractions, c0..cn)."""
+    alg = Algebra()
+    out = []
+    seen = set()
+
+    def rec(t, parent_pure):
+        if not isinstance(t, tuple) or not t:
+            return
+        if id(t) in seen:
+            return
+        seen.add(id(t))
+        h = t[0]
+        if not isinstance(h, str):
+            for x in t:
+                rec(x, False)
+            return
+        pure = h in ("add", "mul", "pow", "num", "sym") and is_pure(t, {var})
+        if pure and not parent_pure:
+            if any(x == ("sym", var) for x in T.walk(t)):
+                try:
+                    cs = numeric_poly(alg, t, var)
+                except (AnalysisError, ZeroDivisionError):
+                    cs = None
+                if cs is not None and len(cs) - 1 >= min_degree:
+                    out.append(tuple(cs))
+            return
+        if h == "add" and not pure:
+            # the pure summands of a mixed sum form one polynomial (e.g. J0 + P*k + ... + sin terms)
+            ps = [x for x in t[1:] if is_pure(x, {var})]
+            if len(ps) >= 2 and any(any(y == ("sym", var) for y in T.walk(x)) for x in ps):
+                g = T.add(*ps)
+                try:
+                    cs = numeric_poly(alg, g, var)
+                except (AnalysisError, ZeroDivisionError):
+                    cs = None
+                if cs is not None and len(cs) - 1 >= min_degree:
+                    out.append(tuple(cs))
+                for x in t[1:]:
+                    if x not in ps and isinstance(x, tuple):
+                        rec(x, False)
+                return
+        for x in t[1:]:
+            if isinstance(x, tuple):
+                rec(x, pure)
+    rec(term, False)
+    return out
+
+
+def all_value_terms(outs):
+    """every term reachable from the outcomes of a function (return values and the
+    local environment at each return)"""
+    vals = []
+    for o in outs:
+        if o.value is not None:
+            vals.append(o.value)
+        if o.kind == "ret":
+            for k, v in o.env.items():
+                if not k.startswith("$") and isinstance(v, tuple):
+                    vals.append(v)
+    return ("bag",) + tuple(vals)
